@@ -1,5 +1,12 @@
-"""Corner catalogue loader (corpus/corners.c.txt)."""
+"""Corner catalogue loader (corpus/corners.c.txt).
+
+Blocks are separated by lines starting with '%%'.  The first block is a
+prelude prepended to every other block.  A separator '%% Fnn' tags the block
+as the minimal input of known finding Fnn: such blocks are not part of
+corner_programs() (which only contains programs the tree is expected to
+accept); finding_blocks() returns them."""
 import os
+import re
 
 _HERE = os.path.dirname(os.path.dirname(os.path.abspath(__file__)))
 _cache = None
@@ -9,9 +16,10 @@ def _load():
     global _cache
     if _cache is None:
         text = open(os.path.join(_HERE, "corpus", "corners.c.txt"), encoding="utf-8").read()
-        blocks = text.split("\n%%\n")
-        blocks = [b.strip("\n") for b in blocks[1:]]
-        _cache = (blocks[0], blocks[1:])
+        parts = re.split(r"(?m)^%%[ \t]*(\S*)[ \t]*\n", text)
+        # parts: [header, tag1, block1, tag2, block2, ...]
+        blocks = [(parts[i] or None, parts[i + 1].strip("\n")) for i in range(1, len(parts) - 1, 2)]
+        _cache = (blocks[0][1], blocks[1:])
     return _cache
 
 
@@ -20,9 +28,13 @@ def prelude():
 
 
 def corner_blocks():
-    return list(_load()[1])
+    return [b for t, b in _load()[1] if t is None]
+
+
+def finding_blocks():
+    return [(t, b) for t, b in _load()[1] if t is not None]
 
 
 def corner_programs():
-    pre, blocks = _load()
-    return [pre + "\n" + b + "\n" for b in blocks]
+    pre = prelude()
+    return [pre + "\n" + b + "\n" for b in corner_blocks()]
